@@ -19,6 +19,7 @@ def use(v, what):
     """touch the data of a returned value: a view of an unmapped file would crash here"""
     try:
         if isinstance(v, np.ndarray):
+            v._check_alive()          # a view of a memory map that has been closed dangles
             return v._rows()
         return None
     except UseAfterUnmap:
@@ -192,6 +193,11 @@ def h_empty(valid: bool, vok: bool, k: int, probe: int, atom=(), ctx=False, _gat
 
 
 def replay_access(cex, d):
+    """runs in a forked child: a dangling view would kill the interpreter"""
+    return rp.forked(_replay_access, cex, d)
+
+
+def _replay_access(cex, d):
     """Real darr vs real NumPy; opaque tokens are instantiated with concrete index expressions."""
     import os
     import warnings
@@ -270,8 +276,7 @@ def replay_access(cex, d):
                 if werr is not gerr and (werr is None or gerr is None or not issubclass(gerr, werr)):
                     probs.append(f'{kind} a[{idx!r}]: numpy {werr}, darr {gerr}')
                 elif werr is None:
-                    got = np_.asarray(got)
-                    if not rp.same(np_, got, np_.asarray(want)):
+                    if not rp.same(np_, np_.asarray(got), np_.asarray(want)):
                         probs.append(f'{kind} a[{idx!r}] differs from numpy')
                     if isinstance(got, np_.memmap) or (getattr(got, 'base', None) is not None and isinstance(got.base, np_.memmap)):
                         probs.append(f'{kind}: result is (a view of) a memmap')
@@ -312,7 +317,7 @@ def replay_access(cex, d):
         a.append(rp.values(np_, int(min(fx['k'], 100)), atom, numtype, bo, 77))
         a[0:1] = 9
         for got, want in results:
-            if not rp.same(np_, got, want):
+            if not rp.same(np_, np_.array(got, copy=True), want):       # touching a dangling view crashes here
                 probs.append('earlier result changed')
     if probs:
         return {'reproduced': True, 'detail': '; '.join(probs[:4])}
